@@ -92,7 +92,7 @@ PROPS = {
             'note': VERUS_NOTE + '; stream origin must be the message origin (known finding D15)'},
     'C04': {'standin': ['roundtrip', 'txt'], 'verus': True, 'kani': ['header_write_layout'], 'scope_findings': [(D15_KEY, D15_TEXT)],
             'technique': 'Verus: len() == |wf_enc| per type, RDLENGTH = |rdata encoding|, header counts = section lengths (+1 for OPT), all against an abstract std::io::Write contract (emission log + positional buffer), so any writer kind gives the same bytes',
-            'text': 'proof for all packets within DNS size limits and every writer obeying the Write contract: Packet::write_to emits hdr_enc(counts) + sections (+ one OPT record) and nothing else; ResourceRecord::write_to writes RDLENGTH = |RDATA|; errors of the writer propagate through `?` without panics. Packet::write_compressed_to is proved to emit a message that decodes with the header counts, RDLENGTH back-patched to the number of RDATA bytes that follow, and the OPT record exactly once; the vector-returning entry points return exactly the bytes the writer-based ones emit (same spec function)',
+            'text': 'proof for all packets whose names, strings and option lists are within their element limits (no premise on section sizes or RDATA sizes: sections of more than 65535 entries and RDATA of more than 65535 bytes are proved to be refused with an error) and every writer obeying the Write contract: Packet::write_to emits hdr_enc(counts) + sections (+ one OPT record) and nothing else; ResourceRecord::write_to writes RDLENGTH = |RDATA|; errors of the writer propagate through `?` without panics. Packet::write_compressed_to is proved to emit a message that decodes with the header counts, RDLENGTH back-patched to the number of RDATA bytes that follow, and the OPT record exactly once; the vector-returning entry points return exactly the bytes the writer-based ones emit (same spec function)',
             'note': VERUS_NOTE + '; build_bytes_vec / build_bytes_vec_compressed are verified against an assumed model of std::io::Cursor<Vec<u8>> (storage = the vector); RDATA > 65535 bytes and sections > 65535 entries are refused (fix 9f3bf1d, obligation oversized-rdata-refused / counts-not-truncated); len() of SVCB / NSEC is assumed; compressed writer: stream origin 0 only (known finding D15); TXT::new / add_char_string are proved to keep the cached size, add_string / with_* are thin unverified wrappers'},
     'C05': {'standin': ['malformed'], 'verus': True, 'kani': [],
             'technique': 'Verus: Packet::parse / parse_section / ResourceRecord::parse / RData::parse / Question::parse proved against an RFC 1035 envelope spec (chain of entries, RDLENGTH-delimited RDATA, typed content decoded from the message truncated at the RDATA end)',
